@@ -106,12 +106,12 @@ claim('C09', 'other',
       'Thin proved kernel + bounded: StagedMap (__getitem__ builds on demand and returns the built component, load refuses a second declaration of a name and '
       'commutes for distinct names, _build_global) and XsdGlobals.clear (every derived map is emptied on every path: a rebuild starts from nothing) are under contract; '
       'permutations, include splits, location spellings, rebuild, copy of the maps, pickle, import order are a bounded contract - each arrangement gives the same '
-      'global components, errors and data on nine probes (a keyref referring to a key declared on another element, XSD 1.1 defaultAttributes, attribute groups with wildcards shared by several consumers).',
+      'global components, errors and data on nine probes (a keyref referring to a key declared on another element, XSD 1.1 defaultAttributes, attribute groups with wildcards shared by several consumers); a sub-process builds a schema with vc: conditional inclusion twice as the first two schemas of a fresh interpreter.',
       'Thin: one hand-written family of 14 forward-referencing globals, not the corpus.', 'DESIGN.md 5/C09')
 claim('C10', 'other',
       'Proved kernel + bounded: ValidationContext.clear resets every status slot (slot list read from the real class) and IdentityCounter.reset are proved; a frame '
       'obligation over the 113 validation-path methods (writes to self within the stated frame; writes through component-holding locals only on objects created in '
-      'the same statement list) is decided syntactically on the real AST; absence of residue between calls is a bounded contract over seeded call histories compared with a fresh schema (xsi:type on fixed / referenced / blocked declarations, unions, on-demand namespace loads).',
+      'the same statement list) is decided syntactically on the real AST; absence of residue between calls is a bounded contract over seeded call histories compared with a fresh schema (xsi:type on fixed / referenced / blocked declarations, unions, on-demand namespace loads), and over every ordered pair of documents of two small families (xsi:type met under two identity scopes; a local declaration beside a wildcard that resolves to a same-named global).',
       'A-CACHE (memo caches are transparent) is assumed by the encoding. A namespace loaded on demand in the middle of a run rebuilds the components in use: listed finding.', 'DESIGN.md 5/C10')
 claim('C11', 'other',
       'Proved kernel + bounded: the depth / element counters of both loaders (XMLResourceExceeded raised exactly when a limit is exceeded; a document at '
@@ -123,7 +123,7 @@ claim('C12', 'proof',
       'XMLResource.access_control is proved for all strings: returning normally implies allowed(mode, url, base) with segment-wise containment for '
       'sandbox; only XMLResourceBlocked is raised; is_local_scheme and the local/remote classification are proved exact (exactly one class per URL-like string). '
       'Canonicalisation of spellings (normalize_url, urlsplit, pathlib) is assumed in the proof and exercised by an exhaustive bounded catalogue with an '
-      'audit hook: 5 modes x include/import/redefine/instance hint x 14 spellings, sandbox without an explicit base_url (for the main schema, for the package-level functions that build the schema from an instance hint, for namespaces loaded on demand from the locations argument), dotted absolute file URLs, parse() on resource / document objects. the first block of XMLResource.__init__ is proved to leave a sandboxed resource with a base URL or to refuse it, whatever the source kind; XMLResource.get_url is proved to return normalize_url of the mapped location. Propagation obligations '
+      'audit hook: 5 modes x include/import/redefine/instance hint x 14 spellings, sandbox without an explicit base_url (for the main schema, for the package-level functions that build the schema from an instance hint, for namespaces loaded on demand from the locations argument), dotted absolute file URLs, parse() on resource / document objects, schemas built through from_settings() with a per-call mode, location hints on inner elements of documents without a base URL and hints that name a namespace of the meta-schema (evaluated in a worker process: the class-level meta-schema must not change). the first block of XMLResource.__init__ is proved to leave a sandboxed resource with a base URL or to refuse it, whatever the source kind; XMLResource.get_url is proved to return normalize_url of the mapped location. Propagation obligations '
       '(the base URL of the referring schema reaches every load; get_arguments returns every Argument of the class hierarchy) are decided on the real AST / real objects.',
       'Proved: the decision kernel. Assumed: normalize_url canonicalises, no symlinks, every fetch goes through access_control (dominance is checked by the bounded catalogue, not proved).',
       'DESIGN.md 5/C12')
